@@ -29,7 +29,7 @@ def validate_published(ctx, repo, records_path, out_path):
     with open(records_path) as f, open(inp, "w") as o:
         for line in f:
             r = json.loads(line)
-            o.write(json.dumps({"id": r["id"], "file": r["file"], "doc": r["doc"]}) + "\n")
+            o.write(json.dumps({"id": r["id"], "file": r["file"], "doc": r["doc"], "extra": r.get("extra") or []}) + "\n")
     t0 = time.time()
     with open(inp) as fi, open(out_path, "w") as fo:
         p = subprocess.run(["python3-vt", script, os.path.join(repo, "schemas")], stdin=fi, stdout=fo,
@@ -50,14 +50,14 @@ def trace_record(r, pv):
     c = r.get("case")
     return {
         "file": r["file"],
-        "nodes": [{"at": n["at"], "keys": n["keys"]} for n in r["nodes"]],
+        "nodes": [{"at": n["at"], "keys": n["keys"], "nulls": n.get("nulls") or []} for n in r["nodes"]],
         "loader": "accept" if r["loader"]["accept"] else "reject",
         "lclass": r["loader"]["class"],
         "published": "accept" if pv["accept"] else "reject",
         "pclass": pv["class"],
         "expl": ("yes" if c["expl"] else "no") if c else "none",
         "expp": ("yes" if c["expp"] else "no") if c else "none",
-        "routes": [{"name": rt["name"], "v": "accept" if rt["accept"] else "reject", "judged": rt["class"] in ("ok", "key", "empty")}
+        "routes": [{"name": rt["name"], "v": "accept" if rt["accept"] else "reject", "judged": rt["class"] in ("ok", "key", "empty", "document")}
                    for rt in r.get("routes") or []],
     }
 
@@ -81,9 +81,17 @@ def walk(g, f, at):
     return nid
 
 
+def _declares(g, f, nid, k):
+    gn = g[f]["nodes"].get(nid)
+    return bool(gn) and (gn["kind"] == "free" or (gn["kind"] == "map" and (gn["open"] or k in {x["k"] for x in gn["keys"]})))
+
+
 def strict_witness(kl, f, at, nid):
-    """node kind that let an unknown key through; below a node decoded by a custom UnmarshalYAML it is that unmarshaler
-    (a nested decoder is not strict: every node below it is lax because of it)"""
+    """node kind that let an unknown key through ("second-document": a further YAML document of the file is never looked at);
+    below a node decoded by a custom UnmarshalYAML it is that unmarshaler (a nested decoder is not strict: every node below
+    it is lax because of it)"""
+    if nid == "second-document":
+        return nid
     for i in range(len(at) + 1):
         n = kl[f]["nodes"].get(walk(kl, f, at[:i]))
         if n and n.get("custom"):
@@ -92,9 +100,14 @@ def strict_witness(kl, f, at, nid):
 
 
 def illegal_keys(g, f, nodes):
-    """[(at, key, node id)] for every key of the document that grammar g does not declare at its node"""
+    """[(at, key, node id)] for every key of the file that grammar g does not declare at its node (node id "second-document" for
+    the mapping nodes of a further YAML document of the file)"""
     out = []
     for n in nodes:
+        if n.get("doc", 1) > 1:
+            out += [(n["at"], k, "second-document") for k in n["keys"]
+                    for nid2 in [walk(g, f, n["at"])] if nid2 != "free" and not _declares(g, f, nid2, k)]
+            continue
         nid = walk(g, f, n["at"])
         if nid == "free":
             continue
@@ -209,7 +222,7 @@ def classify(r, pv, facts, kl, kp):
         sigs += same_sigs(r, pv, facts, kl, kp)
     if "RouteStrict" in violated:
         for rt in r["routes"]:
-            if rt["class"] in ("ok", "key", "empty") and rt["accept"] != (okl and rules):
+            if rt["class"] in ("ok", "key", "empty", "document") and rt["accept"] != (okl and rules):
                 if "LoaderStrict" in violated and rt["accept"] == lacc:
                     continue   # the route only inherits the primary loader's defect, reported above
                 sigs += loader_sigs(r, rt, facts, kl, "@" + rt["name"])
@@ -271,7 +284,8 @@ class Run:
         for f in FILES:
             for nid, n in self.kl[f]["nodes"].items():
                 if n["t"].startswith("unsupported") or n["t"].startswith("dict:structured"):
-                    raise core.Inconclusive("loader grammar: %s (%s) is not modelled by ConfigLang" % (nid, n["t"]))
+                    # not a reason to give up: the node is taken as the extractor approximated it, the observed verdicts decide
+                    ctx.notes.append("loader node %s has a type the key grammar does not model (%s): approximated" % (nid, n["t"]))
                 if n["custom"]:
                     ctx.notes.append("loader node %s has a custom UnmarshalYAML: its keys are taken from the struct fields and "
                                      "checked against the decoder's observed behaviour" % nid)
@@ -291,7 +305,8 @@ class Run:
 
     def generate(self, name, consts):
         """one exhaustive TLC run of the generator; returns (tlc result, DIFF list)"""
-        c = {"MaxVisits": 1, "MaxInject": 1, "MaxPos": 0, "MaxSteps": 99, "Slice": 0, "NSlices": 1, "Styles": '{"fresh"}'}
+        c = {"MaxVisits": 1, "MaxInject": 1, "MaxPos": 0, "MaxSteps": 99, "Slice": 0, "NSlices": 1, "Styles": '{"fresh"}',
+             "Forms": '{}', "Carriers": '{"plain"}'}
         c.update(consts)
         r = self.ctx.run_tlc("ConfigLangMC", "ConfigLangMC.cfg", workers=8, timeout=2400, files=self.gfiles(), constants=c)
         diffs = list(core.tagged_lines(r["out"], "DIFF"))
@@ -330,16 +345,18 @@ class Run:
             self.records += 1
             self.account(r, pv)
             facts = fails.get(i)
-            lj = r["loader"]["class"] in ("ok", "key", "empty")
+            lj = r["loader"]["class"] in ("ok", "key", "empty", "document")
             pj = pv["class"] in ("ok", "key", "structure")
             for rt in r.get("routes") or []:
                 d = self.routes.setdefault(r["file"], {}).setdefault(rt["name"], {"accept": 0, "reject": 0, "not_judged": 0})
-                d["not_judged" if rt["class"] not in ("ok", "key", "empty") else "accept" if rt["accept"] else "reject"] += 1
-                if rt["class"] not in ("ok", "key", "empty") and len(self.route_unjudged) < 5:
+                d["not_judged" if rt["class"] not in ("ok", "key", "empty", "document") else "accept" if rt["accept"] else "reject"] += 1
+                if rt["class"] not in ("ok", "key", "empty", "document") and len(self.route_unjudged) < 5:
                     self.route_unjudged.append({"route": rt["name"], "err": rt["err"][:300], "yaml": r["yaml"][:300]})
             if not lj or not pj:
                 self.unjudged.append({"id": r["id"], "file": r["file"], "loader": r["loader"], "published": pv,
-                                      "yaml": r["yaml"], "expected_to_load": bool(r.get("case") and r["case"]["expl"])})
+                                      "yaml": r["yaml"],
+                                      # null / empty VALUES are value-level by construction: never a reason to stop
+                                      "expected_to_load": bool(r.get("case") and r["case"]["expl"] and r["case"]["form"] == "map")})
             if r.get("stale"):
                 self.inconclusive.append("value tables name Go fields that no longer exist: %s" % sorted(set(r["stale"])))
             if not facts:
@@ -358,7 +375,7 @@ class Run:
             if "GeneratorAgrees" in facts["violated"]:
                 self.inconclusive.append("generator and full-tree verdicts differ for case %s: %s" % (json.dumps(r.get("case"))[:300], r["yaml"][:300]))
             sigs = classify(r, pv, facts, self.kl, self.kp)
-            replay = {"file": r["file"], "yaml": r["yaml"], "doc": r["doc"], "case": r.get("case"), "origin": r.get("origin"),
+            replay = {"file": r["file"], "yaml": r["yaml"], "doc": r["doc"], "extra": r.get("extra") or [], "case": r.get("case"), "origin": r.get("origin"),
                       "loader": r["loader"], "routes": r.get("routes") or [], "published": pv, "violated": sorted(facts["violated"])}
             for sig, what in dict(sigs).items():
                 self.pending.append((sig, "%s: loader=%s (%s) published=%s (%s) on\n%s" % (
@@ -393,6 +410,10 @@ class Run:
         if c is None:
             self.count(f, "real-injected" if r["inj"] else "real-valid")
             return
+        if c["carrier"] != "plain":
+            self.count(f, "carrier-" + c["carrier"])
+        if c["form"] != "map" and not c["emptyrule"]:
+            self.count(f, "value-%s%s" % (c["form"], "" if c["expl"] else "-leaves-rule-without-action"))
         if c["emptyrule"] and not c["inj"]:
             self.count(f, "empty-rule" if c["form"] == "map" else "empty-rule-null")
             if c["npos"] > 1:
@@ -401,8 +422,8 @@ class Run:
         elif c["inj"]:
             free = all((self.kl[f]["nodes"].get(i["ldr"]) or {"kind": "free"})["kind"] == "free" for i in r["inj"])
             self.count(f, "inject-free-form" if free else ("inject-%d" % len(c["inj"])))
-            if not free and any(i["key"] != UNKNOWN and not i["key"].endswith("." + UNKNOWN) for i in r["inj"]):
-                self.count(f, "inject-case-variant")
+            if not free and c["style"] != "fresh":
+                self.count(f, "inject-spelling-" + c["style"])
             for i in r["inj"]:
                 self.count_kind(f, i["ldr"] or "free-form", "inject")
         else:
@@ -441,7 +462,7 @@ def replay(ctx):
     run.grammars()
     rec = os.path.join(ctx.scratch, "replay.ndjson")
     src = os.path.join(ctx.scratch, "replay-in.json")
-    json.dump({"file": doc["file"], "doc": doc["doc"]}, open(src, "w"))
+    json.dump({"file": doc["file"], "doc": doc["doc"], "extra": doc.get("extra") or [], "text": doc.get("yaml") or ""}, open(src, "w"))
     ctx.run_worker(env={"TMPDIR": ctx.scratch}, args=["c20-doc", "-in", src, "-kloader", run.kl_path, "-kpublished", run.kp_path], stdout_path=rec)
     run.judge(rec, "replay")
     run.report()
@@ -458,10 +479,11 @@ def run(ctx):
 
     # (A) TLC enumerates the documents; (B) the worker pushes each through the real loaders
     if quick:
-        plans = [("base", {"MaxVisits": 1, "Styles": '{"fresh", "case"}'}),
+        plans = [("base", {"MaxVisits": 1, "Styles": '{"fresh", "case", "midcase", "param"}', "Forms": '{"null", "empty"}',
+                           "Carriers": '{"plain", "merge", "bom", "seconddoc"}'}),
                  # an EMPTY rule first, in the middle and last among valid rules, in every rule list (a conversion loop that
                  # lets a later valid rule wipe the error of an earlier empty one only shows when the empty rule is not last)
-                 ("empty-rule-positions", {"MaxVisits": 1, "MaxPos": 2, "MaxSteps": 2}),
+                 ("empty-rule-positions", {"MaxVisits": 1, "MaxPos": 2, "MaxSteps": 2, "Forms": '{"null"}', "_siblings": True}),
                  ("deep-compiler", {"MaxVisits": 2, "Files": '{"compiler"}'}),
                  # members of the rule unions are cut into 12 classes by position; only classes 5, 9, 10, 11 contain members
                  # with recursive types (properties, add_option, add_factory, add_assignment): the seed picks one of them, the
@@ -471,17 +493,19 @@ def run(ctx):
     else:
         plans = [("deep", {"MaxVisits": 2}),
                  ("deeper-compiler", {"MaxVisits": 3, "Files": '{"compiler"}'}),
-                 ("two-injections", {"MaxVisits": 1, "MaxInject": 2, "Styles": '{"fresh", "case"}'}),
-                 ("positions", {"MaxVisits": 1, "MaxPos": 2})]
+                 ("two-injections", {"MaxVisits": 1, "MaxInject": 2, "Styles": '{"fresh", "case", "midcase", "param"}',
+                                     "Forms": '{"null", "empty"}', "Carriers": '{"plain", "merge", "bom", "seconddoc"}'}),
+                 ("positions", {"MaxVisits": 1, "MaxPos": 2, "Forms": '{"null"}', "_siblings": True})]
     all_diffs = {}
     ncases = 0
     for name, consts in plans:
-        r, diffs = run_.generate(name, consts)
+        r, diffs = run_.generate(name, {k: v for k, v in consts.items() if not k.startswith("_")})
         for d in diffs:
             all_diffs[(d["file"], tuple(d["at"]))] = d
         recs = os.path.join(ctx.scratch, "records-%s.ndjson" % name)
         t0 = time.time()
-        ctx.run_worker(env={"TMPDIR": ctx.scratch}, args=["c20-run", "-in", r["out"], "-kloader", run_.kl_path, "-kpublished", run_.kp_path, "-unknown", UNKNOWN],
+        ctx.run_worker(env={"TMPDIR": ctx.scratch}, args=["c20-run", "-in", r["out"], "-kloader", run_.kl_path, "-kpublished", run_.kp_path, "-unknown", UNKNOWN]
+                       + (["-siblings"] if consts.get("_siblings") else []),
                        stdout_path=recs, timeout=3000)
         core.log("worker c20-run (%s): %d cases through the real loaders in %.1fs" % (name, r["distinct"], time.time() - t0))
         os.remove(r["out"])
@@ -541,7 +565,7 @@ def run(ctx):
         "space": "finite and enumerated completely: every walk through the product of the two grammars in which no node pair repeats more "
                  "than MaxVisits times (every key path of both grammars), every subset of <= MaxInject mapping nodes of each such document for "
                  "the unknown key, every rule list entry left empty ({})" + ("" if quick else ", every rule at list positions 0..2"),
-        "plans": [{"name": n, **c} for n, c in plans],
+        "plans": [{"name": n, **{k.lstrip("_"): v for k, v in c.items()}} for n, c in plans],
         "generated_cases": ncases,
         "real_documents": nreal,
         "grammar_nodes": {f: {"published": len(run_.kp[f]["nodes"]), "loader": len(run_.kl[f]["nodes"])} for f in FILES},
@@ -577,7 +601,8 @@ def reproduce(ctx, run_):
     d = ctx.sub("reproduce")
     src, rec = os.path.join(d, "in.ndjson"), os.path.join(d, "rec.ndjson")
     sigs = sorted(first)
-    open(src, "w").write("".join(json.dumps({"file": first[s]["file"], "doc": first[s]["doc"]}) + "\n" for s in sigs))
+    open(src, "w").write("".join(json.dumps({"file": first[s]["file"], "doc": first[s]["doc"], "extra": first[s].get("extra") or [],
+                                             "text": first[s]["yaml"]}) + "\n" for s in sigs))
     ctx.run_worker(env={"TMPDIR": ctx.scratch}, args=["c20-doc", "-in", src, "-kloader", run_.kl_path, "-kpublished", run_.kp_path], stdout_path=rec)
     pub = validate_published(ctx, run_.repo, rec, os.path.join(d, "pub.ndjson"))
     for s, line in zip(sigs, open(rec)):
@@ -589,7 +614,8 @@ def reproduce(ctx, run_):
 
 def vacuity(run_, quick):
     out = []
-    need = ["valid-key-path", "inject-1", "inject-case-variant"]
+    need = ["valid-key-path", "inject-1", "inject-spelling-case", "inject-spelling-midcase", "inject-spelling-param",
+            "carrier-merge", "carrier-bom", "carrier-seconddoc", "value-null", "value-empty"]
     for f in FILES:
         c = run_.counters.get(f, {})
         for a in need:
@@ -604,12 +630,13 @@ def vacuity(run_, quick):
                 for form in ("", "-null"):
                     if c.get("empty-rule%s-at-%d-of-3" % (form, p), 0) < nlists:
                         out.append("%s/empty rule (%s) at position %d of 3 not exercised in every rule list" % (f, form or "{}", p))
-            want = {"compiler": ["PassesFrom", "pipeline:transformations.schemas", "pipeline:inputs[].transformations"],
-                    "veneers": ["pipeline:transformations.builders"]}[f]
-            for name in want:
-                d = run_.routes.get(f, {}).get(name, {"accept": 0, "reject": 0})
-                if d["accept"] == 0 or d["reject"] == 0:
-                    out.append("%s route %s: judged accepts=%d rejects=%d" % (f, name, d["accept"], d["reject"]))
+        want = {"compiler": ["PassesFrom", "pipeline:transformations.schemas", "pipeline:inputs[].transformations"],
+                "veneers": ["RewriterFrom[valid,file,valid]", "pipeline:transformations.builders"],
+                "pipeline": ["PipelineFromFile+Parameters"]}[f]
+        for name in want:
+            d = run_.routes.get(f, {}).get(name, {"accept": 0, "reject": 0})
+            if d["accept"] == 0 or d["reject"] == 0:
+                out.append("%s route %s: judged accepts=%d rejects=%d" % (f, name, d["accept"], d["reject"]))
         if c.get("inject-free-form", 0) == 0:
             out.append("%s/inject-free-form never exercised" % f)
         if not quick:
@@ -648,6 +675,8 @@ def selftest(ctx, run_):
                         constants={"StrictMode": "TRUE"}, allow_violation=True)
         res[name] = x["violated"]
     if res["good"] or not res["bad"]:
+        if ctx.failures:   # never turn observed violations into exit 2
+            return "FAILED (genuine record rejected=%s, corrupted record rejected=%s); violations are reported regardless" % (res["good"], res["bad"])
         raise core.Inconclusive("binding self-test failed: genuine record rejected=%s, corrupted record rejected=%s" % (res["good"], res["bad"]))
     return ("ConfigLangTrace(StrictMode) accepts a genuine record of this run (a document with an unknown key, rejected by the real loader and by "
             "the published schema) and rejects the same record with the loader verdict flipped to accept")
